@@ -120,6 +120,10 @@ def streams(tier, rng, P, only=None, cases=None):
         n = 4000 if big else 500
         for i in range(n):
             prog = mml.gen_program(rng, depth=rng.choice([1, 2, 3]), maxlen=8, top=False)
+            if rng.random() < 0.25:
+                # PLAY: the parts start where the command stands (on tracks that may not exist yet), so they shift with it
+                parts = [mml.gen_cmds(rng, 1, rng.choice([1, 2, 3]), top=False) for _ in range(rng.randrange(1, 4))]
+                prog = prog + [('play', parts)] + mml.gen_cmds(rng, 0, rng.randrange(0, 3), top=False)
             src = mml.pr(prog)
             L = rng.choice(["1", "4", "8.", "2^8", "%37", "16", ""])
             cs.append(dict(req="run2 %s %s" % (hx(src), hx("r" + L + " " + src)), src=src, show="r%s + [%s]" % (L, src[:200]), L=L, key="rs%d" % i))
@@ -131,7 +135,7 @@ def streams(tier, rng, P, only=None, cases=None):
         L = int(m[0].split("out=")[1])
         t1 = f["tracks1"].split(";"); t2 = f["tracks2"].split(";")
         if len(t1) != len(t2): return ("violation", "track count changed by a leading rest")
-        for a, b in zip(t1[:1], t2[:1]):
+        for a, b in zip(t1, t2):      # (the programs do not switch tracks: every track that exists was created by PLAY at the shifted position)
             ea = [] if a == "~" else a.split(","); eb = [] if b == "~" else b.split(",")
             if len(ea) != len(eb): return ("violation", "a leading rest changed the number of events")
             for x, y in zip(ea, eb):
